@@ -302,7 +302,7 @@ class DiskLayout:
                 for kind in (("ML",) if tier == "quick" else ("ML", "BASIC", "ASCII")):
                     out.append({"id": "foreign/%s/len%d/%s" % (kind, L, order), "k": "foreign", "kind": kind, "len": L, "order": order,
                                 "bounded": "foreign image, %s %d bytes, chain order %s" % (kind, L, order)})
-        for h in ("small-files", "large-files", "mixed", "huge-ml", "huge-basic", "huge-ascii", "ten-thirteen", "fourteen-nine", "reopen-link-to-0"):
+        for h in ("small-files", "large-files", "mixed", "huge-ml", "huge-basic", "huge-ascii", "ten-thirteen", "fourteen-nine", "reopen-link-to-0", "ascii-70k"):
             out.append({"id": "fill/%s" % h, "k": "fill", "shape": h, "bounded": "one concrete history on the default fill order"})
         for c in out:
             # only the re-open history belongs to C09 as well
@@ -532,6 +532,9 @@ class DiskLayout:
             sizes = [("ASCII", 65535), ("BASIC", 2301)]
         elif shape == "ten-thirteen":
             sizes = [10 * 2304 - 20, 13 * 2304 - 20, ("ASCII", 2304)]
+        elif shape == "ascii-70k":
+            # the one kind of file that can be longer than 64K: no length field in its stream
+            sizes = [("ASCII", 69120), 300, ("ASCII", 92415 - 69120)]
         elif shape == "reopen-link-to-0":
             # a nearly full disk: the fourth file's chain runs from granule 61 into granule 0 (table entry $00 = link to granule 0);
             # the image is re-opened from its bytes before every addition, as --append does
@@ -562,7 +565,8 @@ class DiskLayout:
             except Raised as e:
                 ok = False
                 if e.cls != "VirtualFileValidationError":
-                    env.fail("C13:no-internal-error", ("C13",), (lambda: "%s:escape:%s" % (sigpfx, e.cls)) if native else None)
+                    # (a file that fits is not stored: that is C15's clause too, whatever the exception class)
+                    env.fail("C13:no-internal-error", ("C13", "C15"), (lambda: "%s:escape:%s" % (sigpfx, e.cls)) if native else None)
                     return
             if fits and not ok:
                 env.fail("C15:fits-is-stored", ("C15",), (lambda: "%s:rejected-with-%d-free-granules-%d-free-slots-needing-%d" %
